@@ -78,6 +78,16 @@ theorem missing_iff (d : Data) (s : List Char) (nm : Name) :
   · rintro ⟨h1, h2⟩
     exact ⟨_, h1, by simp [segMissing, h2]⟩
 
+/-- **only placeholders are substituted**: whatever is looked up (and hence whatever can be reported
+missing) is a non-empty name over `[-a-zA-Z0-9_]` that occurs in the line literally as `@name@`;
+conversely (`simple_var`) such an occurrence after plain text *is* substituted -/
+theorem var_segment_sound (s : List Char) (nm : Name) (h : Seg.var nm ∈ segments s) :
+    nm ≠ [] ∧ (∀ c ∈ nm, isNameChar c = true) ∧ ('@' :: (nm ++ ['@'])) <:+: s := by
+  obtain ⟨h1, h2⟩ := scan_var_wf _ _ _ _ h
+  refine ⟨h1, h2, ?_⟩
+  have := src_infix_of_mem h
+  rwa [segments_partition] at this
+
 /-- a line without `@` is copied unchanged and reports nothing -/
 theorem no_at_identity (d : Data) (s : List Char) (h : '@' ∉ s) :
     substMeson d s = s ∧ missingMeson d s = [] :=
@@ -204,39 +214,62 @@ theorem cmake_no_placeholder_identity (atOnly : Bool) (d : Data) (fuel : Nat) (l
     substCmake atOnly d fuel line = .ok (line, []) := by
   simpa [substCmake] using parseLine_plain atOnly d fuel [] line [] h1 h2 hf
 
-/-- full statement (termination): for every line and data some fuel lets the scanner finish -/
+/-- termination: for every line and data some fuel lets the scanner finish -/
 def cmake_terminates_statement : Prop :=
   ∀ (atOnly : Bool) (d : Data) (line : List Char), ∃ fuel, substCmake atOnly d fuel line ≠ .error .fuel
 
-/-- **the cmake scanner does not terminate on a self-referential value**: line `${A}` with `A = 'x${A}'`
-runs out of *every* fuel (the implementation never returns) -/
-theorem cmake_terminates_counterexample : ¬ cmake_terminates_statement := by
-  intro h
-  obtain ⟨fuel, hf⟩ := h false loopData "${A}".toList
-  exact hf (cmake_loop_aux fuel [] [])
+/-- **the cmake scanner terminates on every input** — in particular on self-referential values such as
+`${A}` with `A = 'x${A}'`: every loop iteration consumes template text, so one unit of fuel per
+character (plus one) suffices, for all data -/
+theorem cmake_fuel_suffices (atOnly : Bool) (d : Data) (line : List Char) (fuel : Nat) (h : line.length < fuel) :
+    substCmake atOnly d fuel line ≠ .error .fuel :=
+  fuel_suffices atOnly d fuel [] line [] h
 
-/-- termination holds on the placeholder-free part of the input space -/
-theorem cmake_terminates_partial (atOnly : Bool) (d : Data) (line : List Char) (h1 : '@' ∉ line) (h2 : '$' ∉ line) :
-    ∃ fuel, substCmake atOnly d fuel line ≠ .error .fuel :=
-  ⟨line.length + 1, by rw [cmake_no_placeholder_identity atOnly d _ line h1 h2 (Nat.lt_succ_self _)]; simp⟩
+theorem cmake_terminates : cmake_terminates_statement :=
+  fun atOnly d line => ⟨line.length + 1, cmake_fuel_suffices atOnly d line _ (Nat.lt_succ_self _)⟩
 
-/-- full statement (every well-formed `${VAR}` is replaced): two adjacent placeholders are both replaced -/
+example : substCmake false [(['A'], .str "x${A}".toList)] 5 "${A}".toList = .ok ("x${A}".toList, []) := by decide
+
+/-- **one pass, for all values** (`${name}` after plain text): the scanner state after the placeholder has
+the plain text and the value — whatever it contains — appended to the output, and only the text *after*
+the placeholder left to scan.  (`pre` is the output so far, reversed; the scanner never reads it.) -/
+theorem cmake_var_one_pass (d : Data) (f : Nat) (pre p name post : List Char) (m : List Name)
+    (hp : ∀ c ∈ p, c ≠ '@' ∧ c ≠ '$') (hn : ∀ c ∈ name, isCmakeChar c = true) (hf : name.length < f) :
+    parseLine false d (f + 1 + p.length) pre (p ++ '$' :: '{' :: (name ++ '}' :: post)) m =
+      parseLine false d f ((varVal d name).reverse ++ (p.reverse ++ pre)) post (varMiss d name ++ m) := by
+  rw [parseLine_plain_prefix false d p (f + 1) pre _ m hp, parseLine_var_step d f _ name post m hn hf, varGet_eq]
+
+/-- the same for `@name@`, in both cmake formats -/
+theorem cmake_at_one_pass (atOnly : Bool) (d : Data) (f : Nat) (pre p name post : List Char) (m : List Name)
+    (hp : ∀ c ∈ p, c ≠ '@' ∧ c ≠ '$') (hne : name ≠ []) (hn : ∀ c ∈ name, isCmakeChar c = true) :
+    parseLine atOnly d (f + 1 + p.length) pre (p ++ '@' :: (name ++ '@' :: post)) m =
+      parseLine atOnly d f ((varVal d name).reverse ++ (p.reverse ++ pre)) post (varMiss d name ++ m) := by
+  rw [parseLine_plain_prefix atOnly d p (f + 1) pre _ m hp, parseLine_at_step atOnly d f _ name post m hne hn,
+    varGet_eq]
+
+/-- every well-formed `${VAR}` is replaced: two adjacent placeholders are both replaced and both looked
+up, for **all** values — empty, undefined or containing placeholders themselves -/
 def cmake_adjacent_statement : Prop :=
-  ∀ (d : Data) (a b : Name) (va vb : List Char), d.get? a = some (.str va) → d.get? b = some (.str vb) →
-    '$' ∉ va → '@' ∉ va → '$' ∉ vb → '@' ∉ vb → a ≠ [] → b ≠ [] → (∀ c ∈ a ++ b, isCmakeChar c = true) →
-    substCmake false d 100 ("${".toList ++ a ++ "}${".toList ++ b ++ "}".toList) = .ok (va ++ vb, [])
+  ∀ (d : Data) (a b : Name) (fuel : Nat), (∀ c ∈ a ++ b, isCmakeChar c = true) →
+    a.length + b.length + 8 ≤ fuel →
+    substCmake false d fuel ('$' :: '{' :: (a ++ '}' :: '$' :: '{' :: (b ++ ['}']))) =
+      .ok (varVal d a ++ varVal d b, varMiss d b ++ varMiss d a)
 
-/-- the code violates it: after an *empty* value the next character is skipped, so `${A}${B}` with
-`A = ''` leaves `${B}` in the output and reports nothing -/
-theorem cmake_adjacent_counterexample : ¬ cmake_adjacent_statement := by
-  intro h
-  have := h [(['A'], .str []), (['B'], .str "bee".toList)] ['A'] ['B'] [] "bee".toList rfl rfl
-    (by decide) (by decide) (by decide) (by decide) (by decide) (by decide) (by decide)
-  revert this
-  decide
+theorem cmake_adjacent : cmake_adjacent_statement := by
+  intro d a b fuel hc hf
+  have ha : ∀ c ∈ a, isCmakeChar c = true := fun c h => hc c (List.mem_append_left _ h)
+  have hb : ∀ c ∈ b, isCmakeChar c = true := fun c h => hc c (List.mem_append_right _ h)
+  obtain ⟨g, rfl⟩ : ∃ g, fuel = g + 1 + 1 + 1 := ⟨fuel - 3, by omega⟩
+  unfold substCmake
+  rw [parseLine_var_step d (g + 2) [] a _ [] ha (by omega), varGet_eq,
+    parseLine_var_step d (g + 1) _ b [] _ hb (by omega), varGet_eq]
+  simp [parseLine]
 
 example : substCmake false [(['A'], .str []), (['B'], .str "bee".toList)] 100 "${A}${B}".toList
-    = .ok ("${B}".toList, []) := by decide
+    = .ok ("bee".toList, []) := by decide
+
+example : substCmake false [(['B'], .str "bee".toList)] 100 "${A}${B}".toList
+    = .ok ("bee".toList, [['A']]) := by decide
 
 /-! ### `#mesondefine` string values are scanned once more -/
 
